@@ -19,8 +19,8 @@ Reference model (small and boring, written from the property and the CLI help, n
       (bare `--sources` or `--sources=`) means no sources.
     * a source item that is an id of another filter in the list stands for "an address that filter binds", suffix kept
       byte for byte; any other item (tcp://, ipc://, file://, unknown word) is the user's and must come out unchanged.
-    * outputs the user wrote come out unchanged; a filter that is referenced and has none gets one allocated; nobody
-      else gets one.
+    * outputs the user wrote come out unchanged; a filter that is referenced and has none gets one allocated; outputs
+      the user explicitly emptied stay away unless another filter names that filter.
     * documented refusals (ValueError): duplicate id, a filter naming itself as source, a source naming a filter whose
       outputs are not message-queue addresses.
 
@@ -302,10 +302,10 @@ def judge(case, outcome, m):
         else:
             how = 'auto'
 
-            if i not in m['referenced']:
-                out.append(('C12/output-allocated-for-unreferenced-filter',
-                            f'filter {i} ({got_ids[i]}) got outputs {o!r} although nobody names it'
-                            + (' and its outputs were explicitly emptied' if m['emptied_out'][i] else '')))
+            if i not in m['referenced'] and m['emptied_out'][i]:  # (allocating for an unmentioned one is not forbidden)
+                out.append(('C12/emptied-outputs-came-back',
+                            f'filter {i} ({got_ids[i]}) got outputs {o!r} although its outputs were explicitly emptied '
+                            f'and nobody names it'))
 
             if not isinstance(o, str) or not (RE_AUTO_TCP.match(o) if not case['ipc'] else o.startswith('ipc://')):
                 out.append(('C12/allocated-output-malformed', f'filter {i}: allocated outputs {o!r} (ipc={case["ipc"]})'))
